@@ -533,7 +533,7 @@ func matchKnown(known []knownFinding, prop string, f failure) *knownFinding {
 		}
 		ruleOK := k.Rule == f.Rule
 		for _, r := range k.Rules {
-			if r == f.Rule {
+			if r == f.Rule || (r == "*" && len(k.Discriminator) > 0) { // "*": any rule, identified by the discriminator alone
 				ruleOK = true
 			}
 		}
